@@ -39,3 +39,18 @@ check('C01', 'exploration',
       'DESIGN.md §3 C01')
 for k in CHECKS:
     NOT_YET.pop(k, None)
+
+check('C08', 'model_checking',
+      'exhaustive small saliency patterns against reference estimators; reference EM run in lock-step with the implementation (every traced iteration state)',
+      'Single-distribution trainers and the mixture-weight update are compared with loop-level reference estimators on '
+      'every assignment of {0,0.5,1,2} to N<=4 frames (plus graded / none), all documented options and leading axes; '
+      'the repetition law is checked for every integer saliency vector in {1..3}^N; for the seven mixture trainers a '
+      'reference EM (reference densities + reference estimators + reference aligner) is run next to the '
+      'implementation: every traced (affiliation, quadratic form, model) state is compared per step from the '
+      "implementation's own previous state, the hook is validated against fit(iterations=i), and the n-fold "
+      'reference composition is compared end to end.',
+      'Watson concentration judged by the residual of the eigenvalue equation (1e-6), Bingham eigenvalues by the '
+      'gradient equation (1e-5); a Gaussian fit may raise when the weighted scatter is singular; generic-position data.',
+      'DESIGN.md §3 C08')
+for k in CHECKS:
+    NOT_YET.pop(k, None)
